@@ -58,7 +58,7 @@ def run(ctx):
                       "an element of stats_ is modified through an iterator/reference while stats_mutex_ is held only in %s mode: two threads "
                       "incrementing the same counter lose updates" % ("shared" if any(x.endswith("#shared") for x in h0) else "no"))
     ctx.counters["stats_map_accesses"] = n_acc
-    ctx.floor("stats_map_accesses", 6, "accesses of Stats::stats_")
+    ctx.floor("stats_map_accesses", 4, "accesses of Stats::stats_")
     for q in ("getAll", "increment", "set", "reset"):
         f = ctx.fn1("Oomd::Stats::" + q)
         gv = LA.guard_vars(f)
@@ -320,6 +320,17 @@ def run(ctx):
         aw_ = alias_write_nodes(rsf, "Oomd::Stats::stats_")
         ok = bool(aw_) and all(rsf.nodes[a_]["k"] == "bin" and rsf.nodes[a_].get("op") == "=" and rsf.text(rsf.nodes[a_]["r"]) == "0" and
                                rsf.text(rsf.nodes[a_]["l"]).endswith("->second") for a_ in aw_)
+    if not muts and not zero and not ok:
+        # algorithm spelling: std::for_each(stats_.begin(), stats_.end(), [](auto& kv) { kv.second = 0; })
+        fe = [i for i in rsf.calls() if re.search(r"\bfor_each\b", rsf.nodes[i].get("callee") or rsf.nodes[i].get("cname") or "") and len(rsf.nodes[i].get("args", [])) == 3 and
+              rsf.text(rsf.nodes[i]["args"][0]) == "this->stats_.begin()" and rsf.text(rsf.nodes[i]["args"][1]) == "this->stats_.end()"]
+        if len(fe) == 1:
+            lam = P.fns.get(rsf.nodes[rsf.strip(rsf.nodes[fe[0]]["args"][2])].get("lusr"))
+            if lam is not None and len(lam.params) == 1:
+                pn_ = lam.params[0]["name"]
+                ws_ = [n_ for n_ in lam.nodes if n_["k"] in ("bin", "call") and n_.get("op") in ("=", "+=", "-=", "++", "--")]
+                ok = len(ws_) == 1 and ws_[0]["k"] == "bin" and ws_[0]["op"] == "=" and lam.text(ws_[0]["l"]) == pn_ + ".second" and lam.text(ws_[0]["r"]) == "0" \
+                    and not [c_ for c_ in lam.calls() if not lam.nodes[c_].get("cconst") and "op" not in lam.nodes[c_]]
     ctx.check(ok, "reset-zeroes-existing-keys", "value-shape", rsf.loc(), "reset assigns 0 to every key it iterates and nothing else",
               "reset mutates the map otherwise: " + str([(nm, X(rsf.nodes[i]["args"][0]) if rsf.nodes[i].get("args") else "") for i, nm in muts]))
 
